@@ -145,9 +145,19 @@ Keep(e, M, D) ==
                                      /\ Interested(M, e)
               [] OTHER -> FALSE
 
-(* the stack map frame travels on the instruction event and is subject to its own flag *)
+(* the stack map frame travels on the instruction event and is subject to its own flag.  The rows of          *)
+(* LocalVariableTable ("t") and LocalVariableTypeTable ("y") travel in one visit_local_variables event, each  *)
+(* subject to the flag of its table: `vis` names the kinds of rows present; recorded events carry the digest  *)
+(* of the "t" rows in `arg` and that of the "y" rows in `frame`.                                              *)
+LvKinds(t, y) == (IF t THEN "t" ELSE "") \o (IF y THEN "y" ELSE "")
 Adjust(e, M) ==
-    IF e.lvl = "code" /\ e.ev = "visit_instruction" /\ ~M.code.stack_map_table THEN [e EXCEPT !.frame = ""] ELSE e
+    IF e.lvl = "code" /\ e.ev = "visit_instruction" /\ ~M.code.stack_map_table THEN [e EXCEPT !.frame = ""]
+    ELSE IF e.lvl = "code" /\ e.ev = "visit_local_variables" THEN
+        LET t == M.code.local_variable_table /\ e.vis \in {"t", "ty"}
+            y == M.code.local_variable_type_table /\ e.vis \in {"y", "ty"}
+            e1 == [e EXCEPT !.vis = LvKinds(t, y), !.frame = IF y THEN @ ELSE ""]
+        IN IF "arg" \in DOMAIN e THEN [e1 EXCEPT !.arg = IF t THEN @ ELSE ""] ELSE e1
+    ELSE e
 
 Filter(es, M, D) ==
     LET kept == SelectSeq(es, LAMBDA e : Keep(e, M, D)) IN [i \in DOMAIN kept |-> Adjust(kept[i], M)]
@@ -156,7 +166,8 @@ Filter(es, M, D) ==
 (* visit_instruction) is delivered when something the reader parsed refers to the position, so it is not   *)
 (* an item of the class: event streams are compared without visit_last_label (recorded digests carry       *)
 (* positions, not label ids).                                                                               *)
-Items(es) == SelectSeq(es, LAMBDA e : ~(e.lvl = "code" /\ e.ev = "visit_last_label"))
+(* Likewise a visit_local_variables call without rows (vis = "") carries no item.                           *)
+Items(es) == SelectSeq(es, LAMBDA e : ~(e.lvl = "code" /\ (e.ev = "visit_last_label" \/ (e.ev = "visit_local_variables" /\ e.vis = ""))))
 
 Renumber(es, k) == [i \in DOMAIN es |-> [es[i] EXCEPT !.c = k]]
 
@@ -247,8 +258,8 @@ Treat(lvl, name) ==
       [] lvl = "code" ->
            CASE name \in {"StackMapTable", "StackMap"} -> <<"frames", "stack_map_table", "", "">>
              [] name = "LineNumberTable"        -> <<"lines", "line_number_table", "", "">>
-             [] name = "LocalVariableTable"     -> <<"silent", "local_variable_table", "", "">>
-             [] name = "LocalVariableTypeTable" -> <<"silent", "local_variable_type_table", "", "">>
+             [] name = "LocalVariableTable"     -> <<"locals", "local_variable_table", "", "">>
+             [] name = "LocalVariableTypeTable" -> <<"locals", "local_variable_type_table", "", "">>
              [] name \in {"RuntimeVisibleTypeAnnotations", "RuntimeInvisibleTypeAnnotations"} -> Common(name)
              [] OTHER -> <<"simple", "unknown_attributes", "visit_unknown_attribute", "">>
       [] OTHER -> Common(name)       \* rc
@@ -276,18 +287,22 @@ ReadCodeAttrs(as, M, c, mi, acc) ==
                                  !.evs = IF want THEN @ \o DeliverEvents("code", t, c, "m", mi) ELSE @,
                                  !.frames = @ \/ (want /\ t[1] = "frames"),
                                  !.lines = @ \/ (want /\ t[1] = "lines"),
+                                 !.lvt = @ \/ (want /\ a.name = "LocalVariableTable"),        \* both tables end up in one list;
+                                 !.lvtt = @ \/ (want /\ a.name = "LocalVariableTypeTable"),   \* which rows it has is the event's `vis`
                                  !.endlabel = @ \/ (want /\ a.endref)]
          IN ReadCodeAttrs(Tail(as), M, c, mi, acc2)
 
 (* read_code: max_stack/max_locals, code, exception table, nested attributes, then the instruction loop *)
 ReadCode(a, M, c, mi, cur) ==
-    LET nested == ReadCodeAttrs(a.sub, M, c, mi, [cur |-> cur + CodePre + 2, evs |-> <<>>, frames |-> FALSE, lines |-> FALSE, endlabel |-> FALSE])
+    LET nested == ReadCodeAttrs(a.sub, M, c, mi, [cur |-> cur + CodePre + 2, evs |-> <<>>, frames |-> FALSE, lines |-> FALSE, lvt |-> FALSE, lvtt |-> FALSE, endlabel |-> FALSE])
         insns == [i \in 1..CodeInsns |-> Ev("code", "visit_instruction", c, "m", mi, "", IF nested.frames /\ i = 1 THEN FrameDigest ELSE "")]
     IN [cur |-> nested.cur,
         evs |-> <<Ev("code", "visit_max_stack_and_max_locals", c, "m", mi, "", "")>> \o nested.evs \o insns
                 \o (IF nested.endlabel THEN <<Ev("code", "visit_last_label", c, "m", mi, "", "")>> ELSE <<>>)
                 \o <<Ev("code", "visit_exception_table", c, "m", mi, "", "")>>
-                \o (IF nested.lines THEN <<Ev("code", "visit_line_numbers", c, "m", mi, "", "")>> ELSE <<>>)]
+                \o (IF nested.lines THEN <<Ev("code", "visit_line_numbers", c, "m", mi, "", "")>> ELSE <<>>)
+                \o (IF nested.lvt \/ nested.lvtt
+                    THEN <<Ev("code", "visit_local_variables", c, "m", mi, LvKinds(nested.lvt, nested.lvtt), "")>> ELSE <<>>)]
 
 (* skip_attributes: attributes_count, then per attribute name index, length and `length` bytes *)
 SkipAttributes(as, cur) == cur + AttrsSize(as)
@@ -480,6 +495,7 @@ Unknowns(lvl, as) == SelectSeq(as, LAMBDA a : IsUnknown(lvl, a))
 
 AcceptCode(a, M, c, mi) ==
     LET has(kind) == \E j \in DOMAIN a.sub : Treat("code", a.sub[j].name)[1] = kind
+        hasName(n) == \E j \in DOMAIN a.sub : a.sub[j].name = n
         insns == [i \in 1..CodeInsns |-> Ev("code", "visit_instruction", c, "m", mi, "",
                                             IF has("frames") /\ M.code.stack_map_table /\ i = 1 THEN FrameDigest ELSE "")]
         annos == Flatten([j \in DOMAIN AcceptOrder.code |->
@@ -492,6 +508,9 @@ AcceptCode(a, M, c, mi) ==
        \o <<Ev("code", "visit_exception_table", c, "m", mi, "", "")>>
        \o (IF \E j \in DOMAIN a.sub : a.sub[j].endref THEN <<Ev("code", "visit_last_label", c, "m", mi, "", "")>> ELSE <<>>)
        \o (IF has("lines") /\ M.code.line_number_table THEN <<Ev("code", "visit_line_numbers", c, "m", mi, "", "")>> ELSE <<>>)
+       \o (LET t == hasName("LocalVariableTable") /\ M.code.local_variable_table          \* rows of a table the visitor did not
+                y == hasName("LocalVariableTypeTable") /\ M.code.local_variable_type_table  \* ask for are not replayed either
+            IN IF t \/ y THEN <<Ev("code", "visit_local_variables", c, "m", mi, LvKinds(t, y), "")>> ELSE <<>>)
        \o annos \o unk
 
 AcceptAttrs(lvl, as, M, D, c, mk, mi) ==
